@@ -27,8 +27,8 @@ CONSTANTS Nodes,        \* set of node names
           Sched,        \* "rtc" | "preempt"
           Horizon       \* clock bound (state constraint)
 
-VARIABLES node, pc, wire, now, sent, alive, lost, advn, dm, bm, monbad, dead, spin, ret
-vars == <<node, pc, wire, now, sent, alive, lost, advn, dm, bm, monbad, dead, spin, ret>>
+VARIABLES node, pc, wire, now, sent, alive, lost, advn, dm, bm, monbad, dead, spin, ret, tainted, nabort
+vars == <<node, pc, wire, now, sent, alive, lost, advn, dm, bm, monbad, dead, spin, ret, tainted, nabort>>
 
 Init ==
     /\ node = [n \in Nodes |-> [InitNode EXCEPT !.su = IdleSleep + WakeLat]]
@@ -41,6 +41,7 @@ Init ==
     /\ dm = DmInit /\ bm = BmInit
     /\ monbad = {} /\ dead = {} /\ spin = {}
     /\ ret = <<>>
+    /\ tainted = {} /\ nabort = 0
 
 Running == {n \in Nodes : pc[n].ph # "idle"}
 Due(n) == n \in alive /\ wire[n] # <<>> /\ Head(wire[n]).at <= now
@@ -63,15 +64,21 @@ EmitAll(acc, n, outs, i, drops) ==
               IN EmitAll([acc EXCEPT !.dm = d2.dm, !.bad = @ \cup d2.bad], n, outs, i + 1, drops)
 
 TxIdx(outs) == {i \in 1..Len(outs) : outs[i].k = "tx"}
-Emit(n, outs, w0, dm0) ==
+EmitT(n, outs, w0, dm0, taint0) ==
     \E drops \in SUBSET TxIdx(outs) :
        /\ Cardinality(drops) + lost <= MaxLoss
        /\ LET acc == EmitAll([wire |-> w0, dm |-> dm0, bm |-> bm, bad |-> {}], n, outs, 1, drops) IN
           /\ wire' = acc.wire /\ dm' = acc.dm /\ bm' = acc.bm
           /\ monbad' = monbad \cup acc.bad
           /\ lost' = lost + Cardinality(drops)
+          \* ghosts: messages that a fault may have hit; number of connection aborts put on the bus
+          /\ tainted' = IF drops = {} THEN taint0 ELSE taint0 \cup (1..Len(dm0.acc))
+          /\ nabort' = nabort + Cardinality({i \in TxIdx(outs) : IdPf(outs[i].id) = PF_TPCM /\ Len(outs[i].data) >= 1 /\ outs[i].data[1] = CB_ABORT})
+
+Emit(n, outs, w0, dm0) == EmitT(n, outs, w0, dm0, tainted)
 
 Calm == Running = {} /\ Due0 = {}
+SettledNow == /\ Running = {} /\ \A n \in alive : wire[n] = <<>> /\ node[n].tok = 0 /\ node[n].snd = <<>> /\ node[n].rcv = <<>>
 
 (* the application submits message i *)
 Submit(i) ==
@@ -81,7 +88,9 @@ Submit(i) ==
            r == SendPgn(node[n], NodeCfg[n], a, now)
        IN /\ node' = [node EXCEPT ![n] = r.ns]
           /\ ret' = Append(ret, [i |-> i, ok |-> r.ret, busy |-> Has(node[n].snd, Hash(m.sa, IF m.ps = GLOBAL \/ IsPdu2(m.pf) THEN GLOBAL ELSE m.ps))])
-          /\ Emit(n, r.out, wire, IF r.ret THEN DmAccept(dm, n, a) ELSE dm)
+          \* a transfer started while the stacks are still cleaning up after a fault may be hit by it too
+          /\ EmitT(n, r.out, wire, IF r.ret THEN DmAccept(dm, n, a) ELSE DmRefuse(dm),
+                   IF r.ret /\ (lost > 0 \/ alive # Nodes) /\ ~SettledNow THEN tainted \cup {Len(dm.acc) + 1} ELSE tainted)
     /\ sent' = sent \cup {i}
     /\ UNCHANGED <<pc, now, alive, advn, dead, spin>>
 
@@ -117,7 +126,7 @@ JobWake(n) ==
        \/ /\ node[n].tok = 0 /\ node[n].su # None /\ node[n].su <= now
           /\ node' = [node EXCEPT ![n].su = None]
     /\ pc' = [pc EXCEPT ![n] = PassBegin(node[n], now)]
-    /\ UNCHANGED <<wire, now, sent, alive, lost, advn, dm, bm, monbad, dead, spin, ret>>
+    /\ UNCHANGED <<wire, now, sent, alive, lost, advn, dm, bm, monbad, dead, spin, ret, tainted, nabort>>
 
 (* one granule of the running job pass of n *)
 JobStep(n) ==
@@ -128,12 +137,12 @@ JobStep(n) ==
             /\ node' = [node EXCEPT ![n] = pe.ns]
             /\ pc' = [pc EXCEPT ![n] = IF pe.pc.ph = "again" THEN PassBegin(pe.ns, now) ELSE pe.pc]
             /\ spin' = IF pe.spin THEN spin \cup {n} ELSE spin
-            /\ UNCHANGED <<wire, dm, bm, monbad, lost, dead>>
+            /\ UNCHANGED <<wire, dm, bm, monbad, lost, dead, tainted, nabort>>
        ELSE LET r == Granule(node[n], NodeCfg[n], pc[n], now) IN
             IF r.dead
             THEN /\ dead' = dead \cup {n}
                  /\ pc' = [pc EXCEPT ![n] = PcIdle]
-                 /\ UNCHANGED <<node, wire, dm, bm, monbad, lost, spin>>
+                 /\ UNCHANGED <<node, wire, dm, bm, monbad, lost, spin, tainted, nabort>>
             ELSE /\ node' = [node EXCEPT ![n] = r.ns]
                  /\ pc' = [pc EXCEPT ![n] = r.pc]
                  /\ Emit(n, r.out, wire, dm)
@@ -145,7 +154,8 @@ Vanish(n) ==
     /\ Calm /\ n \in alive /\ Cardinality(Nodes \ alive) < MaxVanish
     /\ alive' = alive \ {n}
     /\ wire' = [wire EXCEPT ![n] = <<>>]
-    /\ UNCHANGED <<node, pc, now, sent, lost, advn, dm, bm, monbad, dead, spin, ret>>
+    /\ tainted' = tainted \cup (1..Len(dm.acc))
+    /\ UNCHANGED <<node, pc, now, sent, lost, advn, dm, bm, monbad, dead, spin, ret, nabort>>
 
 (* time passes to the next instant at which something is due *)
 Cands == {wire[n][1].at : n \in {m \in alive : wire[m] # <<>>}}
@@ -157,7 +167,7 @@ Tick ==
     /\ Cands # {}
     /\ now' = CHOOSE t \in Cands : \A u \in Cands : t <= u
     /\ now' > now
-    /\ UNCHANGED <<node, pc, wire, sent, alive, lost, advn, dm, bm, monbad, dead, spin, ret>>
+    /\ UNCHANGED <<node, pc, wire, sent, alive, lost, advn, dm, bm, monbad, dead, spin, ret, tainted, nabort>>
 
 Next ==
     \/ \E i \in 1..Len(Msgs) : Submit(i)
@@ -184,17 +194,26 @@ GivesUp == \A n \in alive \ (dead \cup spin) : \A b \in Sessions(n) : now - b.ac
 \* deadlines are never armed further ahead than the standard's time-outs
 Armed == \A n \in alive : \A b \in Sessions(n) : b.dl - now <= Tmax
 
-Settled == /\ Running = {} /\ \A n \in alive : wire[n] = <<>> /\ node[n].tok = 0 /\ node[n].snd = <<>> /\ node[n].rcv = <<>>
+Settled == SettledNow
 AllSent == sent = 1..Len(Msgs)
 Faultless == lost = 0 /\ alive = Nodes /\ advn = 0
 \* C01: without faults every accepted message has reached every addressed listener once things settle
 Tr0 == [cfg |-> NodeCfg, expect |-> [all |-> TRUE, idle |-> TRUE]]
 DeliveredAll == (Settled /\ Faultless) => DmFinal(dm, Tr0) = {}
+\* C06: a message that no fault can have hit (accepted after the last loss) is delivered everywhere
+CleanDelivered == (Settled /\ alive = Nodes /\ advn = 0) =>
+                     \A i \in 1..Len(dm.acc) : Undelivered(dm, Tr0, i) => i \in tainted
+\* C06: when the job thread gives a connection-mode session up (time-out while waiting for a CTS or
+\* for data packets) a connection abort goes on the bus in the same step
+CmGone(n) == \/ \E i \in 1..Len(node[n].rcv) : node[n].rcv[i].da # GLOBAL /\ ~Has(node'[n].rcv, node[n].rcv[i].key)
+             \/ \E i \in 1..Len(node[n].snd) : /\ node[n].snd[i].da # GLOBAL /\ node[n].snd[i].st = WAITING_CTS
+                                                /\ ~Has(node'[n].snd, node[n].snd[i].key)
+AbortOnGiveUp == [][\A n \in Nodes : (pc[n].ph \notin {"idle", "end"} /\ pc'[n] # pc[n] /\ CmGone(n)) => nabort' > nabort]_vars
 \* C10: send_pgn refuses exactly when a session on that pair exists
 RefusalRule == \A k \in 1..Len(ret) : (Len(Msgs[ret[k].i].data) > 8) => (ret[k].ok = ~ret[k].busy)
 \* liveness (fair specification, no state constraint): the system settles
 EventuallySettled == <>[](Settled \/ dead # {} \/ spin # {})
 
 \* hide history variables from the state fingerprint where they do not influence behaviour
-View == <<node, pc, wire, now, sent, alive, lost, advn, dm, bm, monbad, dead, spin>>
+View == <<node, pc, wire, now, sent, alive, lost, advn, dm, bm, monbad, dead, spin, tainted>>
 =============================================================================
